@@ -18,6 +18,11 @@ META = {
   design_ref="DESIGN.md section 3, C03",
   note="Store level only so far (the end-to-end fork-tree part through the real forkable is not built yet in this commit).",
   technique="rapid stateful (history machine) against a reference model"),
+ "C04": dict(
+  text="Random end-to-end requests on generated programs judged by a monitor over the response sequence (session first, every block in range, strictly increasing, no duplicate or gap across the hand-off, every block from the hand-off on and every block in dev mode delivered, cursor designates the message's block) and by a metamorphic resume relation: a new request started from the cursor of a delivered message (sampled positions in quick, every position in thorough; same or empty cache) must yield exactly the messages that followed; injected deterministic failures must end the stream with an error and nothing after it.",
+  design_ref="DESIGN.md section 3, C04",
+  note="All delivered blocks are final in this world (linear part emitted as new+irreversible), as the statement requires for resumption; cursors on non-final blocks need the hub-based resolver the in-process service does not have.",
+  technique="rapid random generation, sequence monitor + metamorphic resume-from-cursor relation"),
  "C06": dict(
   text="Metamorphic random testing of the module identifier: on generated valid graphs, one single-field mutation of one module must change exactly the identifiers of that module and of its descendants (harness-computed reachability), and the identity transformations (consistent rename incl. alias prefixes, insertion of unrelated modules/binaries, binary re-indexing) must change none; recomputation, reverse query order and exec.NewOutputModuleGraph must agree.",
   design_ref="DESIGN.md section 3, C06",
